@@ -87,7 +87,7 @@ def blocks_of(f):
 
 def own_nodes(f):
     """nodes of f without those of nested function / class definitions"""
-    stack = list(f.body)
+    stack = [s_ for s_ in f.body if not isinstance(s_, (ast.FunctionDef, ast.AsyncFunctionDef, ast.ClassDef))]
     while stack:
         n = stack.pop()
         yield n
@@ -288,7 +288,9 @@ def inline_helpers(tree, relpath):
                             if kind == "expr":
                                 plan.append(("expr", block, i, st, c, m))
                             else:
-                                direct = isinstance(st, (ast.Assign, ast.Return, ast.Expr)) and st.value is c
+                                direct = (isinstance(st, (ast.Assign, ast.Return, ast.Expr)) and st.value is c) or (
+                                    kind == "stmts" and isinstance(st, ast.If) and st.test is c and not any(
+                                        isinstance(p_, ast.If) and p_.orelse == [st] for p_ in ast.walk(host)))
                                 if not direct or not all(_simple(a_) for a_ in m.values()) or (kind == "proc" and not isinstance(st, ast.Expr)):
                                     ok = False
                                     continue
@@ -309,7 +311,10 @@ def inline_helpers(tree, relpath):
                 tail = []
                 if k == "stmts" and not isinstance(st, ast.Expr):
                     new_ret = _Subst(m).visit(copy.deepcopy(ret))
-                    _replace_child(st, c, new_ret)
+                    if isinstance(st, ast.If):
+                        st.test = ast.copy_location(new_ret, c)
+                    else:
+                        _replace_child(st, c, new_ret)
                     tail = [st]
                     if isinstance(st, ast.Assign) and len(st.targets) == 1:
                         t = st.targets[0]
@@ -763,10 +768,35 @@ def normalise_loops(f, r):
        for v in (a, b, c): body   /  for k, v in enumerate((a, b, c)): body   ->  the body once per element (no break / continue / else)"""
     ref_iters = set(r.get("for_iters", []))
     log = []
+    cur_iters = {_ntext(n.iter) for n in own_nodes(f) if isinstance(n, ast.For)}
     for block in blocks_of(f):
         i = 0
         while i < len(block):
             st = block[i]
+            if isinstance(st, (ast.Assign, ast.Return)) and isinstance(st.value, ast.ListComp) and len(st.value.generators) == 1 and not st.value.generators[0].is_async \
+                    and (isinstance(st, ast.Return) or (len(st.targets) == 1 and isinstance(st.targets[0], ast.Name))):
+                # v = [E for t in it if c]   ->   v = []; for t in it: if c: v += [E]     where the reference has the loop over `it`
+                g = st.value.generators[0]
+                it_text = _ntext(g.iter)
+                vname = st.targets[0].id if isinstance(st, ast.Assign) else (r.get("ret_temp") or (list(r.get("growth", {}))[0] if len(r.get("growth", {})) == 1 else None))
+                if vname is not None and isinstance(st, ast.Return) and any(isinstance(n, ast.Name) and n.id == vname for n in own_nodes(f)):
+                    vname = None
+                tn = {n.id for n in ast.walk(g.target) if isinstance(n, ast.Name)}
+                clash = any(isinstance(n, ast.Name) and n.id in tn for n in own_nodes(f) if not any(n is x for x in ast.walk(st)))
+                if it_text in ref_iters and it_text not in cur_iters and vname and not clash:
+                    mk = lambda node: ast.copy_location(node, st)
+                    grow = mk(ast.AugAssign(target=mk(ast.Name(id=vname, ctx=ast.Store())), op=ast.Add(), value=mk(ast.List(elts=[st.value.elt], ctx=ast.Load()))))
+                    body = [grow]
+                    for c in reversed(g.ifs):
+                        body = [mk(ast.If(test=c, body=body, orelse=[]))]
+                    loop = mk(ast.For(target=g.target, iter=g.iter, body=body, orelse=[]))
+                    init = mk(ast.Assign(targets=[mk(ast.Name(id=vname, ctx=ast.Store()))], value=mk(ast.List(elts=[], ctx=ast.Load())), lineno=st.lineno))
+                    new = [init, loop] + ([mk(ast.Return(value=mk(ast.Name(id=vname, ctx=ast.Load()))))] if isinstance(st, ast.Return) else [])
+                    block[i:i + 1] = new
+                    cur_iters.add(it_text)
+                    log.append(("comprehension->loop", st.lineno))
+                    i += len(new)
+                    continue
             if not isinstance(st, ast.For) or st.orelse or _ntext(st.iter) in ref_iters:
                 i += 1
                 continue
@@ -823,9 +853,16 @@ def undo_restructurings(tree, relpath):
     if ref is None:
         return {}
     log = {}
+    for _round in range(2):
+        _undo_round(tree, relpath, ref, log)
+    _strip(tree)
+    return log
+
+
+def _undo_round(tree, relpath, ref, log):
     helpers = inline_helpers(tree, relpath)
     if helpers:
-        log["<module>"] = [f"inlined helper {h}" for h in helpers]
+        log.setdefault("<module>", []).extend(f"inlined helper {h}" for h in helpers)
     for qn, f in qualnames(tree):
         r = ref.get(qn)
         if not isinstance(r, dict) or "ifs" not in r:
@@ -852,6 +889,5 @@ def undo_restructurings(tree, relpath):
         if ng:
             did.append(f"list growth x{ng}")
         if did:
-            log[qn] = did
+            log.setdefault(qn, []).extend(did)
     _strip(tree)
-    return log
